@@ -2,6 +2,7 @@ package common
 
 import (
 	"archive/tar"
+	"io"
 	"os"
 	"path/filepath"
 
@@ -68,13 +69,44 @@ func NewStore(kind string) (Store, func()) {
 }
 
 // TarDir writes dir as a tar archive (regular files and directories only).
-func TarDir(dir, tarPath string) error {
+func TarDir(dir, tarPath string) error { return TarDirAfter("", dir, tarPath) }
+
+// TarDirAfter writes an archive that holds the members of the archive oldTar ("" = none) followed
+// by everything in dir, the way `tar -r` brings an archive up to date: a file that exists in both
+// appears twice, and the later member is the current one.
+func TarDirAfter(oldTar, dir, tarPath string) error {
 	f, err := os.Create(tarPath)
 	if err != nil {
 		return err
 	}
 	defer f.Close()
 	tw := tar.NewWriter(f)
+	if oldTar != "" {
+		of, err := os.Open(oldTar)
+		if err != nil {
+			return err
+		}
+		tr := tar.NewReader(of)
+		for {
+			hdr, err := tr.Next()
+			if err == io.EOF {
+				break
+			}
+			if err != nil {
+				of.Close()
+				return err
+			}
+			if err := tw.WriteHeader(hdr); err != nil {
+				of.Close()
+				return err
+			}
+			if _, err := io.Copy(tw, tr); err != nil {
+				of.Close()
+				return err
+			}
+		}
+		of.Close()
+	}
 	err = filepath.Walk(dir, func(p string, fi os.FileInfo, err error) error {
 		if err != nil {
 			return err
